@@ -10,8 +10,13 @@ import (
 	"time"
 
 	"github.com/bnb-chain/tss-lib/v2/common"
+	"github.com/bnb-chain/tss-lib/v2/crypto"
+	"github.com/bnb-chain/tss-lib/v2/crypto/commitments"
 	"github.com/bnb-chain/tss-lib/v2/crypto/paillier"
+	"github.com/bnb-chain/tss-lib/v2/crypto/schnorr"
+	"github.com/bnb-chain/tss-lib/v2/crypto/vss"
 	ecdsakeygen "github.com/bnb-chain/tss-lib/v2/ecdsa/keygen"
+	eddsakeygen "github.com/bnb-chain/tss-lib/v2/eddsa/keygen"
 	"github.com/bnb-chain/tss-lib/v2/tss"
 
 	"verif/core"
@@ -197,6 +202,14 @@ func c05Gen(tier string, seed int64) []core.Case {
 		id := fmt.Sprintf("%s/n=%d/replay-everything-of-the-first-party@high", sc.proto, sc.n)
 		cs = append(cs, core.Case{ID: id, Class: id, Kind: "replay-all", P: p, Cost: sc.cost})
 	}
+	// a dealer whose Feldman commitments carry a small-order component (edwards25519 has cofactor 8): commitment, opening,
+	// shares and a ground Schnorr proof are all consistent with the torsioned points, and the torsion cancels in the
+	// Feldman check of every honest receiver (ids 1 and 3, dealer id 2)
+	{
+		sc := sessCfg{"eddsa-keygen", 3, 1, nil, 0, 0, "small", 0.6}
+		id := "eddsa-keygen/dealer-with-small-order-components-in-its-commitments@mid"
+		cs = append(cs, core.Case{ID: id, Class: id, Kind: "torsion-dealer", P: sc.P(), Cost: 1})
+	}
 	for _, sc := range smallFaultSessions() {
 		for fiI, fi := range staticFields[sc.proto] {
 			ix := ""
@@ -278,6 +291,9 @@ func c05Run(c core.Case, env *core.Env) core.Result {
 	case "weak":
 		fr, err = runWeakParams(s, c.P.Str("fpos"), c.P.Str("weak"))
 		f = faultSpec{Type: "(pre-parameters)", Field: c.P.Str("weak"), How: "weak-params", Pos: c.P.Str("fpos")}
+	case "torsion-dealer":
+		fr, err = runTorsionDealer(s)
+		f = faultSpec{Type: "(crafted dealing)", Field: "*", How: "torsion-dealer", Pos: "mid"}
 	case "replay-all":
 		fr, err = runReplayAll(s, c.P.Str("fpos"))
 		f = faultSpec{Type: "(every type)", Field: "*", How: "replay-all", Pos: c.P.Str("fpos")}
@@ -448,6 +464,9 @@ func c05Oracle(r *core.Result, fr *faultRun, f faultSpec) {
 	}
 	// a participant that replays everything another participant sends (commitment, opening and identity-bound proof
 	// together) must be noticed by the parties that check the proofs
+	if f.How == "torsion-dealer" && errCount == 0 {
+		r.Fail("unnoticed:torsion-dealer:"+s.Proto, "%s dealt commitments with a small-order component (with a matching opening and Schnorr proof) and no honest party reported an error", D.Name)
+	}
 	if f.How == "replay-all" && errCount == 0 {
 		r.Fail("unnoticed:replay-all:"+s.Proto, "%s replayed every message of another participant as its own and no honest party reported an error", D.Name)
 	}
@@ -657,6 +676,91 @@ func runReplayAll(s *session, pos string) (*faultRun, error) {
 		if d := find(m, to); d != nil {
 			fr.applied++
 			return d.Wire, m.Bcast, m.From.PID, false
+		}
+		return m.Wire, m.Bcast, m.From.PID, false
+	}
+	w.Run(sim.StartsThen(sim.FIFO), nil)
+	return fr, nil
+}
+
+// runTorsionDealer: EdDSA keygen, ids 1,2,3, t=1, the dealer with id 2 deviates. Its messages are replaced by a dealing
+// made in the harness: honest polynomial and shares, every commitment V_k shifted by the point of order 2 (0,-1); the hash
+// commitment, its opening and the Schnorr proof (re-drawn until it verifies for the shifted V_0) are consistent with the
+// shifted points. For the receivers with ids 1 and 3 the shifts cancel in the Feldman check ((1+id)*T = 0).
+func runTorsionDealer(s *session) (*faultRun, error) {
+	w, in, err := s.make(s.env.Seed + 31)
+	if err != nil {
+		return nil, err
+	}
+	fr := &faultRun{w: w, in: in, s: s}
+	fr.dev = pickDeviator(w, "all", "mid")
+	fr.dev.Deviator = true
+	ec := tss.Edwards()
+	q := ec.Params().N
+	ids := make([]*big.Int, len(w.Nodes))
+	for i, n := range w.Nodes {
+		ids[i] = n.PID.KeyInt()
+	}
+	u := common.GetRandomPositiveInt(rand.Reader, q)
+	vs, shares, err := vss.Create(ec, s.T, u, ids, rand.Reader)
+	if err != nil {
+		return nil, err
+	}
+	T2, err := crypto.NewECPoint(ec, big.NewInt(0), new(big.Int).Sub(ec.Params().P, big.NewInt(1)))
+	if err != nil {
+		return nil, err
+	}
+	shifted := make([]*crypto.ECPoint, len(vs))
+	for k := range vs {
+		if shifted[k], err = vs[k].Add(T2); err != nil {
+			return nil, err
+		}
+	}
+	flat, err := crypto.FlattenECPoints(shifted)
+	if err != nil {
+		return nil, err
+	}
+	cmtD := commitments.NewHashCommitment(rand.Reader, flat...)
+	ssidList := []*big.Int{ec.Params().P, ec.Params().N, ec.Params().Gx, ec.Params().Gy}
+	ssidList = append(ssidList, ids...)
+	ssidList = append(ssidList, big.NewInt(1), big.NewInt(0))
+	ctx := append(common.SHA512_256i(ssidList...).Bytes(), new(big.Int).SetUint64(uint64(fr.dev.PID.Index)).Bytes()...)
+	var pf *schnorr.ZKProof
+	for tries := 0; tries < 200; tries++ {
+		p, err := schnorr.NewZKProof(ctx, u, shifted[0], rand.Reader)
+		if err == nil && p.Verify(ctx, shifted[0]) {
+			pf = p
+			break
+		}
+	}
+	if pf == nil {
+		return nil, fmt.Errorf("could not grind a Schnorr proof for the shifted commitment")
+	}
+	wireOf := func(m tss.ParsedMessage) []byte {
+		b, _, err := m.WireBytes()
+		if err != nil {
+			return nil
+		}
+		return b
+	}
+	r1 := wireOf(eddsakeygen.NewKGRound1Message(fr.dev.PID, cmtD.C))
+	r2b := wireOf(eddsakeygen.NewKGRound2Message2(fr.dev.PID, cmtD.D, pf))
+	r2p := map[*sim.Node][]byte{}
+	for j, n := range w.Nodes {
+		r2p[n] = wireOf(eddsakeygen.NewKGRound2Message1(n.PID, fr.dev.PID, shares[j]))
+	}
+	w.Rewrite = func(w *sim.World, m *sim.Msg, to *sim.Node) ([]byte, bool, *tss.PartyID, bool) {
+		if m.From != fr.dev {
+			return m.Wire, m.Bcast, m.From.PID, false
+		}
+		switch m.Short {
+		case "KGRound1Message":
+			fr.applied++
+			return r1, m.Bcast, m.From.PID, false
+		case "KGRound2Message1":
+			return r2p[to], m.Bcast, m.From.PID, false
+		case "KGRound2Message2":
+			return r2b, m.Bcast, m.From.PID, false
 		}
 		return m.Wire, m.Bcast, m.From.PID, false
 	}
